@@ -71,6 +71,9 @@ type replayDoc struct {
 	Params   map[string]int    `json:"params"`
 	Known    []string          `json:"known"`
 	Model    string            `json:"model,omitempty"`
+	// Stress > 0: the counterexample includes a thread schedule the native run cannot impose; the native
+	// replay repeats the harness up to Stress times and confirms the violation if any repetition shows it
+	Stress int `json:"stress,omitempty"`
 }
 
 // ---------------------------------------------------------------- one harness exploration
@@ -427,7 +430,12 @@ func reproduces(v replayDoc, o replayOutcome) bool {
 	case "crash":
 		return o.Panic != ""
 	case "race":
-		return o.Panic != "" || len(o.Failed) > 0
+		for _, id := range o.Failed {
+			if id == "DATA RACE" {
+				return true
+			}
+		}
+		return false
 	}
 	return false
 }
@@ -580,6 +588,9 @@ func checkMain(args []string) int {
 	for _, hr := range results {
 		for _, v := range hr.Violations {
 			d := replayDoc{Property: prop, Harness: hr.Spec.Fn, Pkg: hr.Spec.Pkg, Kind: v.Kind, Msg: v.Msg, Values: v.Values, Params: hr.Params, Known: confirmed, Model: strings.Join(strings.Fields(v.Model), " ")}
+			if v.Par {
+				d.Stress = 4000
+			}
 			b, _ := json.MarshalIndent(d, "", " ")
 			h := sha256.Sum256(b)
 			dir := filepath.Join(verifRoot, "replays", prop)
@@ -597,17 +608,35 @@ func checkMain(args []string) int {
 		for _, p := range ps {
 			files = append(files, p.path)
 		}
-		race := false
+		// data-race witnesses are confirmed by the race detector, one `go test -race` run each
+		var plain []string
+		outs := map[string]replayOutcome{}
+		failed := false
 		for _, p := range ps {
-			if p.doc.Kind == "race" {
-				race = true
+			if p.doc.Kind != "race" {
+				plain = append(plain, p.path)
+				continue
 			}
+			o, txt, _ := replayNative(pkg, []string{p.path}, true)
+			ro := o[p.path]
+			ro.File = p.path
+			if strings.Contains(txt, "WARNING: DATA RACE") {
+				ro.Failed = append(ro.Failed, "DATA RACE")
+			}
+			outs[p.path] = ro
 		}
-		outs, txt, err := replayNative(pkg, files, race)
+		o2, txt, err := replayNative(pkg, plain, false)
 		if err != nil {
 			inconclusive = append(inconclusive, fmt.Sprintf("native replay in %s failed: %v\n%s", pkg, err, tailOf(txt, 40)))
+			failed = true
+		}
+		for k, v := range o2 {
+			outs[k] = v
+		}
+		if failed {
 			continue
 		}
+		_ = files
 		for _, p := range ps {
 			o := outs[p.path]
 			if reproduces(p.doc, o) {
